@@ -81,7 +81,7 @@ CLAIMED = {
  "C11": C("Proved on the parser model: C11_exact_mailbox (for every `<local@domain>` with a non-empty dot-string local part and a non-empty "
           "domain not ending in '@' - the class every real client sends - the parser returns exactly that mailbox and leaves exactly what follows "
           "'>' for the parameter parser), C11_special_refused (a special character in an unquoted local part refuses the path, whatever "
-          "follows), C11_null_sender; with C12_disabled_504 for parameters of disabled extensions. Implementation: every short string over 16 "
+          "follows), C11_quoted_exact (every local part written as a quoted-string with backslash and quote escaped is returned unescaped), C11_null_sender; with C12_disabled_504 for parameters of disabled extensions. Implementation: every short string over 16 "
           "syntactically significant symbols and mutations of valid paths, classified by an independent RFC 5321 reference grammar "
           "(valid => exact mailbox, invalid(class) => refused); parser entry points and parameter handling (good, bad, disabled, duplicated, "
           "lower-case, long-s spelled values) compared with the model.",
